@@ -519,6 +519,7 @@ func (m *Machine) exec(fr *Frame, ins ssa.Instruction) {
 	case *ssa.DebugRef:
 	case *ssa.Alloc:
 		c := m.newCell(x.Type().Underlying().(*types.Pointer).Elem())
+		setSite(c, x)
 		fr.env[x] = Ptr{C: c}
 	case *ssa.UnOp:
 		fr.env[x] = m.unop(fr, x)
@@ -532,6 +533,7 @@ func (m *Machine) exec(fr *Frame, ins ssa.Instruction) {
 		if p.IsNil() {
 			m.goPanic("runtime error: invalid memory address or nil pointer dereference")
 		}
+		m.sharedYield(p.C)
 		m.storePtr(p, m.get(fr, x.Val))
 	case *ssa.FieldAddr:
 		p := m.get(fr, x.X).(Ptr)
@@ -561,6 +563,7 @@ func (m *Machine) exec(fr *Frame, ins ssa.Instruction) {
 		cells := make([]*Cell, c)
 		for i := range cells {
 			cells[i] = m.newCell(et)
+			setSite(cells[i], x)
 		}
 		fr.env[x] = SliceVal{Cells: cells, Len: int(n), NotNil: true, Elem: et}
 	case *ssa.MakeMap:
@@ -649,6 +652,7 @@ func (m *Machine) unop(fr *Frame, x *ssa.UnOp) Value {
 		if p.IsNil() {
 			m.goPanic("runtime error: invalid memory address or nil pointer dereference")
 		}
+		m.sharedYield(p.C)
 		return m.loadPtr(p)
 	case token.NOT:
 		return m.tt.Not(v.(*Term))
@@ -1147,6 +1151,13 @@ func opaqueImplements(o *Opaque, it *types.Interface) bool {
 		return true
 	}
 	return it.NumMethods() == 0
+}
+
+func setSite(c *Cell, s ssa.Instruction) {
+	c.Site = s
+	for _, sub := range c.Sub {
+		setSite(sub, s)
+	}
 }
 
 // ---------------- calls ----------------
